@@ -9,6 +9,7 @@
       the sync header again, the same three words, the unmodified image.
 -/
 import Z80.Spec.Cim
+import Z80.Gen.CimData
 
 namespace Z80.Props.C19
 open Z80 Z80.Spec.Cim
@@ -83,6 +84,33 @@ theorem C19_cas (nam path : List U8) (off : U16) (b : List U8) :
         ← List.append_assoc (casHeader ++ casTypeBin ++ padName _ ++ casHeader ++ w16 off ++ w16 _),
         List.drop_left' (by simp [h8, h10, hp, w16])]
   · simp [h8, h10, hp, w16]; omega
+
+
+-- the output programs extracted from the current source by go2lean ------------------------------------------
+
+open Z80.Gen in
+/-- what an extracted output program writes -/
+def runCim (prog : List CimItem) (off : U16) (b : List U8) (name : List U8) : List U8 :=
+  prog.flatMap fun
+    | .byte v => [BitVec.ofNat 8 v]
+    | .bytes l => l.map (BitVec.ofNat 8)
+    | .u16off => w16 off
+    | .u16end => w16 (endAddr off b)
+    | .name => padName name
+    | .body => b
+
+/-- the sequence of writes in cim2bin's run(), as extracted on this run, IS the model -/
+theorem C19_bin_program (off : U16) (b : List U8) : runCim Gen.cim2binProgram off b [] = cim2bin off b := by
+  simp [runCim, Gen.cim2binProgram, cim2bin]
+/-- … and so is cim2cas's -/
+theorem C19_cas_program (nam path : List U8) (off : U16) (b : List U8) :
+    runCim Gen.cim2casProgram off b (tapeName nam path) = cim2cas nam path off b := by
+  simp [runCim, Gen.cim2casProgram, cim2cas, casHeader, casTypeBin, List.replicate]
+/-- writeU16 stores the low byte first, writeName is six bytes wide padded with spaces, an empty -nam means the input
+    file name (facts extracted from the current source) -/
+theorem C19_helpers_as_extracted :
+    Gen.cim2binU16 = [(0, "(call uint8 u16"), (1, "(call uint8 (>> u16 8")] ∧ Gen.cim2casU16 = Gen.cim2binU16 ∧
+    Gen.cim2casNameWidth = 6 ∧ Gen.cim2casNamePad = 32 ∧ Gen.cim2casDefaultName = true := by decide
 
 /-- the default name is the input file name -/
 theorem C19_default_name (path : List U8) : tapeName [] path = path := rfl
